@@ -12,7 +12,11 @@ Parts (all on the REAL /repo code, compared through the public API):
   D  PassData: every reserved and user key, pickle / copy / become / update,
      against the record model; update_error_mul against exact rationals;
   E  Workflows nesting every control pass, RuntimeTask.serialized_fnargs;
-  F  the malformed payload stream for rebuild_circuit, witnesses.
+  F  the malformed payload stream for rebuild_circuit, witnesses;
+  N  (strengthening round) circuits holding gates that differ in exactly one
+     constructor argument (harness/c16_neighbours.py): the real == must
+     separate them, and what arrives is judged per operation by an
+     independent description and the unitary, never by == alone.
 """
 from __future__ import annotations
 
@@ -25,7 +29,7 @@ from fractions import Fraction
 
 import numpy as np
 
-from harness import circ_sim
+from harness import c16_neighbours, circ_sim
 from harness.c16_util import deep_eq, shared_mutables
 from harness.common import Check
 
@@ -108,6 +112,13 @@ def compare_circuits(sim, x, y, tag, fields=True):
         bad.append((f'{tag}-eq-raises', repr(e)))
     if not same_unitary(unitary_of(x), unitary_of(y)):
         bad.append((f'{tag}-unitary', 'unitaries differ by more than 1e-12'))
+    # independent of the objects' own __eq__: per operation class, every
+    # attribute / public property of the gate, location, parameters
+    try:
+        bad += c16_neighbours.arrival_problems(
+            tag + ':described', c16_neighbours.describe_ops(x), None, y)
+    except Exception as e:
+        bad.append((f'{tag}:described-raises', repr(e)))
     if fields:
         from bqskit.ir.gate import Gate
         d = deep_eq(x.__dict__, y.__dict__, eq_types=(Gate,))
@@ -431,6 +442,52 @@ def part_circuits(ck: Check, n_hist: int, length: int):
 
 
 # ===================================================================== part B
+def part_neighbours(ck: Check, rounds: int):
+    """Part N: circuits holding gates that differ in exactly one constructor
+    argument, judged by an independent description and the unitary."""
+    total = 0
+    for r in range(rounds):
+        rng = random.Random(ck.seed * 104729 + 16 + r)
+        cases, stats = c16_neighbours.cases(rng)
+        if r == 0:
+            ck.coverage['neighbours'] = {
+                k: v for k, v in stats.items() if k != 'gaps'}
+            for gap in stats['gaps']:
+                ck.violation(
+                    'coverage-neighbour:' + gap,
+                    f'constructor argument {gap} of a class exported by '
+                    'bqskit.ir.gates has no neighbour family in '
+                    'harness/c16_neighbours.py: circuits holding two gates '
+                    'that differ only in it are not shipped',
+                    {'argument': gap}, found_input=False)
+        c16_neighbours._CASES = cases
+        nproc = 8
+        jobs = [(k, nproc, ck.seed * 31 + r, 40) for k in range(nproc)]
+        with mp.get_context('fork').Pool(nproc) as pool:
+            res = pool.map(c16_neighbours.worker, jobs)
+        for i, case, text, nq, nops, bad in sorted(
+                x for ch in res for x in ch):
+            total += 1
+            ck.count(('neighbour', case, r), nontrivial=nops > 2)
+            ck.bump('neighbour_circuits', case.split('[')[0])
+            ck.bump('neighbour_circuit_qudits', str(min(nq, 8)))
+            merged: dict = {}
+            for sig, what in bad:       # one report per defect, trips listed
+                parts = sig.split(':')
+                if parts[0] == 'arrival' and len(parts) > 2:
+                    key = 'arrival:' + ':'.join(parts[2:])
+                    merged.setdefault(key, [what, []])[1].append(parts[1])
+                else:
+                    merged.setdefault(sig, [what, []])
+            for sig, (what, trips) in merged.items():
+                if trips:
+                    what += ' [trips: ' + ', '.join(dict.fromkeys(trips)) + ']'
+                ck.violation(sig, what, {'neighbour_case': case,
+                                         'round': r, 'circuit': text})
+        c16_neighbours._CASES = []
+    return total
+
+
 def sample_params(n, rng, k=3):
     pts = [[0.0] * n, [((i * 7 + 3) % 11) / 8.0 - 0.5 for i in range(n)]]
     for _ in range(max(0, k - 2)):
@@ -1923,6 +1980,18 @@ def replay(ck: Check, path: str):
         out = ck.driver('pickle', ['reduce ' + rec['ct']])[0]
         print('model  ', out[:400])
         print('payload', (rec['payload'] or '')[:400])
+    elif 'neighbour_case' in rp:
+        rng = random.Random(body.get('seed', 0) * 104729 + 16
+                            + rp.get('round', 0))
+        cases, _ = c16_neighbours.cases(rng)
+        for i, (case, rad, ops) in enumerate(cases):
+            if case == rp['neighbour_case']:
+                print('circuit', c16_neighbours.circuit_text(rad, ops))
+                for sig, what in c16_neighbours.check_circuit(
+                        case, rad, ops, random.Random(
+                            body.get('seed', 0) * 31 + rp.get('round', 0)
+                            + i)):
+                    ck.violation(sig, what, rp)
     elif 'construction' in rp:
         from harness import c16_gates
         cat, _ = c16_gates.catalogue(ck.rng)
@@ -1959,6 +2028,8 @@ def _run(ck: Check):
     phases['lean_obligations'] = round(time.time() - ck.t0, 1)
     timed('witnesses', part_witnesses, ck)
     timed('gates', part_gates, ck)
+    nnb = timed('neighbours', part_neighbours, ck, 6 if thorough else 1)
+    ck.coverage['neighbour_circuits_checked'] = nnb
     timed('objects', part_objects, ck, 800 if thorough else 24)
     timed('equality', part_equality, ck, 600 if thorough else 40)
     timed('passdata', part_passdata, ck, 400 if thorough else 10)
@@ -1989,7 +2060,13 @@ def _run(ck: Check):
         'from the model of the fixed __eq__/__hash__; sharing: 17 circuit-to-'
         'circuit calls and 9 in-process pass pipelines checked for shared '
         'Operations and leaking edits; a '
-        'circuit counts as non-trivial with more than 6 operations')
+        'circuit counts as non-trivial with more than 6 operations; part N: '
+        'for every gate class with constructor arguments (live signatures) '
+        'families of gates differing in exactly one argument, placed '
+        'together pairwise / as a family / as two blocks in one circuit, '
+        'nine trips each, compared per operation by class + every attribute '
+        'and public property + location + parameters and by numpy unitaries '
+        'up to phase (1e-10), and the real == must separate different gates')
     signal.alarm(0)
     if not proved:
         ck.violation(
@@ -2019,4 +2096,10 @@ def _run(ck: Check):
         'them needs a runtime)',
         'gate identity of the model = (gid, radixes, num_params); that real '
         'gate equality agrees with it is validated on the gate sweep',
+        'C16_reduce_rebuild_keyed assumes KeyInj: the dictionary key (the '
+        'real __eq__/__hash__) separates the gates occurring in the circuit; '
+        'evaluated by part N with the real == on circuits that hold, for '
+        'every constructor argument of every gate class, two gates differing '
+        'only in it (identity = class + instance attributes + public '
+        'properties + unitary); C16_keyed_requires_injective is the converse',
     ]
